@@ -3,7 +3,7 @@ CONSTANTS
   Dicts = {1, 2}
   Bug = "cmp_subset"
   PrefixOf <- MCPrefixOf
-  MaxDepth = 5
+  MaxDepth = 6
   Keys <- K_two
   Ops <- O_all
 INVARIANT TypeOK
